@@ -37,6 +37,7 @@ class RefResult:
     entries: dict = field(default_factory=lambda: {"name": 0, "prefix": 0, "datatype": 0})
     redundant_entries: list = field(default_factory=list)
     missed_elisions: list = field(default_factory=list)
+    missed_elision_terms: list = field(default_factory=list)  # (slot, term) parallel to missed_elisions
     missed_zero: list = field(default_factory=list)
     elided_terms: int = 0
     zero_forms: int = 0
@@ -259,6 +260,7 @@ class RefDecoder:
                 t = self.term(st, f)
                 if oneof in self.prev and freeze(self.prev[oneof]) == freeze(t):
                     self.res.missed_elisions.append(f"{oneof} {t!r} written although equal to the previous statement's {oneof}")
+                    self.res.missed_elision_terms.append((oneof, t))
                 self.prev[oneof] = t
                 terms.append(t)
         if not self.res.options.get("generalized_statements"):
